@@ -151,6 +151,7 @@ func verifYield()
 func verifObserve(key string, v any)
 func verifFail(label string)
 func verifDaemon()
+func verifDormant()
 func verifNumGoroutinesBlocked() int
 func verifEncode(v any, n int) []byte
 func verifEventCount(kind string) int
